@@ -1,5 +1,5 @@
 SPECIFICATION Spec
-CONSTANTS NSubs = 3  NUnits = 4  UsableSet = {1, 2}  Mode = "lease"  Grace = 1  MaxEpoch = 4
+CONSTANTS NSubs = 3  NUnits = 4  UsableSet = {1, 2}  Mode = "lease"  Grace = 1
 INVARIANTS Unique InRange
 PROPERTIES Idem Kept
 VIEW View
